@@ -168,6 +168,9 @@ pub struct Session<'a, B: SddBuilder<'a>> {
     semantic: bool,
     /// mode c16: (vtree, compression) for the cache-cold twin builder of every operation
     cold: Option<(VTree, bool)>,
+    /// mode c11: the slot to hash next (the result of xor / iff on two different pointers of one function: in an uncompressed
+    /// builder a NODE that denotes a constant, whose hash sits on the boundary residues 0 and 1)
+    hash_next: Option<usize>,
 }
 
 /// structural copy of an SDD into another builder over the same vtree (through the public operations only)
@@ -248,6 +251,8 @@ impl<'a, B: SddBuilder<'a>> Session<'a, B> {
         let seeding = self.next_slot < self.labels.len().min(K - 2) && self.next_slot < 6;
         if seeding {
             op = "var";
+        } else if mode == "c11" && self.hash_next.is_some() {
+            op = "semhash";
         }
         if self.labels.len() < self.nv && matches!(op, "cnf" | "expr" | "plan") {
             op = "and"; // a vtree with label gaps: formulas over all of 0..nv would mention variables the builder does not have
@@ -286,6 +291,9 @@ impl<'a, B: SddBuilder<'a>> Session<'a, B> {
                             c = same[rng.below(same.len())];
                             if rng.coin() {
                                 std::mem::swap(&mut a, &mut c);
+                            }
+                            if matches!(op, "xor" | "iff") {
+                                self.hash_next = Some(res_slot);
                             }
                         }
                     }
@@ -388,7 +396,10 @@ impl<'a, B: SddBuilder<'a>> Session<'a, B> {
                     ev["nodes"] = json!(newn);
                     ev["dirty"] = json!(self.ids.dirty());
                     if self.semantic {
-                        ev["hash"] = json!(limbs(sem_hash(ptr)));
+                        match guarded(|| sem_hash(ptr)) {
+                            Ok(h) => ev["hash"] = json!(limbs(h)),
+                            Err(m) => ev["panic"] = json!(format!("cached_semantic_hash: {m}")),
+                        }
                     }
                     if let (Some((vt, compress)), "c16") = (&self.cold, mode) {
                         if !matches!(op, "var" | "cnf" | "expr" | "plan") {
@@ -472,7 +483,7 @@ impl<'a, B: SddBuilder<'a>> Session<'a, B> {
                 r
             }
             "semhash" => {
-                let a = self.arg(rng);
+                let a = self.hash_next.take().unwrap_or_else(|| self.arg(rng));
                 ev["a"] = json!([a]);
                 let x = self.pool[a];
                 if rng.coin() {
@@ -489,11 +500,12 @@ impl<'a, B: SddBuilder<'a>> Session<'a, B> {
                     ev["p"] = json!("U64_LARGEST");
                     let map = create_semantic_hash_map::<{ primes::U64_LARGEST }>(nv);
                     let vm = b.vtree_manager();
-                    guarded(|| (x.semantic_hash(&map), x.neg().semantic_hash(&map), x.cached_semantic_hash(vm, &map))).map(
-                        |(v, n, c)| {
+                    guarded(|| (x.semantic_hash(&map), x.neg().semantic_hash(&map), x.cached_semantic_hash(vm, &map), x.neg().cached_semantic_hash(vm, &map))).map(
+                        |(v, n, c, nc)| {
                             ev["limbs"] = json!(limbs(v.value()));
                             ev["nlimbs"] = json!(limbs(n.value()));
                             ev["climbs"] = json!(limbs(c.value()));
+                            ev["nclimbs"] = json!(limbs(nc.value()));
                         },
                     )
                 }
@@ -529,7 +541,7 @@ fn run<'a, B: SddBuilder<'a>>(
 ) {
     let mut pool = vec![SddPtr::PtrTrue; K];
     pool[1] = SddPtr::PtrFalse;
-    let mut s = Session { b, ids: SddIds::new(), pool, nv, labels, next_slot: 0, semantic, cold };
+    let mut s = Session { b, ids: SddIds::new(), pool, nv, labels, next_slot: 0, semantic, cold, hash_next: None };
     for _ in 0..len {
         if !s.step(rng, mode, out, sem_hash) {
             break;
@@ -649,7 +661,7 @@ pub fn record(args: &Args) {
         let semantic = mode == "sem";
         // C04 is about the compressing builder; elsewhere compression is switched off in a third of the
         // segments (uncompressed SDDs can blow up: those segments are short and small)
-        let compress = semantic || mode == "c04" || !rng.chance(1, 3);
+        let compress = semantic || mode == "c04" || !(if mode == "c11" { rng.coin() } else { rng.chance(1, 3) });
         let tcap = if mode == "c04" { *rng.pick(&[1usize, 2, 2, 4, 4, 8]) } else { *rng.pick(&[0usize, 0, 1, 2, 4, 16]) };
         let seg_len = if compress { len } else { len.min(30) };
         rsdd::verif::set_table_capacity(tcap);
